@@ -6,6 +6,7 @@ import genck
 import implck
 import implinv
 from ckprop import shrink_candidates  # noqa: F401
+import directed
 
 DESCRIPTION = ("Lean: Props/C13.lean (callAsync o = callSync (awaited o) up to await events; coroutine conditions/captures "
                "on sync callables are rejected). Each program is rendered with `def` and with `async def`; the async run of "
@@ -26,8 +27,13 @@ NEIGHBOURS = [{"from": "C05", "limit": 400, "why": "argument binding of async ca
               {"from": "C09", "limit": 500, "why": "every kind of error object surfaces from async callables as from sync ones"}]
 
 
+run_directed = directed.run
+
+
 def cases(tier, rng):
     thorough = tier == "thorough"
+    for c in directed.async_def_spelling_cases():
+        yield "directed-async-def-spelling", c
     for c in genck.exhaustive_pre(KINDS, [True], 2, 2, with_post=(False, True), with_snap=(False, True)):
         yield "exh", c
     for _ in range(30000 if thorough else 4000):
